@@ -4,6 +4,7 @@ Leg A: Reserve.tla exhaustively (3 builders, 5 outputs, 2 rounds, FIFO lock; bot
 Leg C: 2..12 concurrent real Transaction.create calls on one real ledger / sqlite database under DetLoop; arrival
        points enumerated exhaustively for two builders, seeded beyond; TLC validates the recorded history against
        ReserveTrace.tla (NoShare, HeldUnavailable on every step, AllAvailableAtEnd)."""
+import asyncio
 import os
 import shutil
 import sqlite3
@@ -49,12 +50,16 @@ def leg_a(ctx):
 class Prepared:
     """a wallet database with a UTXO set, prepared once and copied per schedule"""
 
-    def __init__(self, ctx, name, amounts, unconfirmed=()):
+    def __init__(self, ctx, name, amounts, unconfirmed=(), second=()):
         from .walletenv import WalletEnv, snapshot
         self.dir = ctx.mkdir(f'c14-prep-{name}')
-        env = WalletEnv(self.dir)
+        self.nacc = 2 if second else 1
+        env = WalletEnv(self.dir, nacc=self.nacc)
         self.amounts = list(amounts)
         env.fund(amounts)
+        if second:
+            env.fund(second, acc=env.accounts[1])
+            self.amounts += list(second)
         if unconfirmed:
             env.fund(unconfirmed, verified=False)
             self.amounts += list(unconfirmed)
@@ -70,7 +75,7 @@ class Run:
         from .walletenv import WalletEnv
         self.dir = ctx.mkdir(f'c14-run-{k}')
         shutil.copyfile(prep.snap, os.path.join(self.dir, 'blockchain.db'))
-        self.env = WalletEnv(self.dir, strategy=strategy)
+        self.env = WalletEnv(self.dir, nacc=prep.nacc, strategy=strategy)
         self.prep = prep
         self.idx = {t: i + 1 for i, t in enumerate(prep.txoids)}
         self.conn = sqlite3.connect(os.path.join(self.dir, 'blockchain.db'))
@@ -99,6 +104,11 @@ class Run:
     def build_coro(self, amount):
         from lbry.wallet.transaction import Transaction, Output, Input
         acc = self.env.account
+        if isinstance(amount, tuple) and amount[0] == 'accs':
+            # ('accs', pay, which): builds that fund from DIFFERENT but overlapping lists of accounts (A, B, A+B, B+A)
+            _, pay, which = amount
+            funding = [self.env.accounts['AB'.index(ch)] for ch in which]
+            return Transaction.create([], [Output.pay_pubkey_hash(int(pay), b'\x06' * 20)], funding, funding[0])
         if isinstance(amount, tuple):
             # ('pre', k, pay): the caller hands over wallet output k (its k-th unspent output at the start) as an input that
             # alone covers the payment - it must be held like a selected one while the build is pending
@@ -108,6 +118,39 @@ class Run:
         if amount == 0:     # nothing requested: the balancing loop runs several rounds over coins barely worth their fee
             return Transaction.create([], [], [acc], acc)
         return Transaction.create([], [Output.pay_pubkey_hash(int(amount), b'\x07' * 20)], [acc], acc)
+
+    def _real_broadcast(self, tx, how):
+        """the real Ledger.broadcast_or_release against a server that never answers (the caller gives up: the task is cancelled)
+        or that refuses the transaction: either way the build is abandoned and its outputs must be released"""
+        from binascii import hexlify
+        loop, ledger = self.env.loop, self.env.ledger
+        if not hasattr(self, 'net_plans'):
+            plans = self.net_plans = {}
+
+            class Net:
+                is_connected = True
+
+                async def retriable_call(self, f, *a, **k):
+                    return await f(*a, **k)
+
+                async def broadcast(self, raw):
+                    if plans.get(raw) == 'refuse':
+                        raise RuntimeError('the server refuses the transaction')
+                    await loop.create_future()          # silence
+            ledger.network = Net()
+        self.net_plans[hexlify(tx.raw).decode()] = how
+
+        async def go():
+            t = loop.create_task(ledger.broadcast_or_release(tx))
+            for _ in range(3):
+                await asyncio.sleep(0)
+            if how == 'cancel':
+                t.cancel()            # lands while the broadcast is waiting for the silent server
+            try:
+                await t
+            except (asyncio.CancelledError, RuntimeError):
+                pass
+        return go()
 
     async def _broadcast(self, tx):
         db = self.env.ledger.db
@@ -147,10 +190,12 @@ class Run:
                 t = tasks[b]
                 if b not in finishing and t.exception() is None and step >= at + endings[b][1]:
                     tx = t.result()
-                    coro = self._broadcast(tx) if endings[b][0] == 'broadcast' else self.env.ledger.release_tx(tx)
+                    kind = endings[b][0]
+                    coro = self._broadcast(tx) if kind == 'broadcast' else self.env.ledger.release_tx(tx) if kind == 'abandon' \
+                        else self._real_broadcast(tx, kind)
                     # the decision is the event: from here on an abandoned build no longer claims its outputs,
-                    # a broadcast one claims them for good
-                    self.log('Broadcast' if endings[b][0] == 'broadcast' else 'Abandon', b=b + 1)
+                    # a broadcast one claims them for good (a broadcast that is cancelled or refused is an abandoned build)
+                    self.log('Broadcast' if kind == 'broadcast' else 'Abandon', b=b + 1)
                     finishing[b] = (loop.spawn(coro), endings[b][0])
             for b, (ft, kind) in list(finishing.items()):
                 if ft is not None and ft.done():
@@ -193,6 +238,7 @@ def leg_c(ctx):
         Prepared(ctx, 'mixed', [int(0.5 * COIN), 1 * COIN, 2 * COIN, 4 * COIN], unconfirmed=[3 * COIN, 1 * COIN]),
         Prepared(ctx, 'many', [int((0.3 + 0.1 * i) * COIN) for i in range(14)]),
         Prepared(ctx, 'dusty', [7500, 7600, 7700, 8000, 8500, 9000, 9500, 10000, 12000]),
+        Prepared(ctx, 'two-accounts', [1 * COIN, 2 * COIN, 2 * COIN], second=[1 * COIN, 2 * COIN, 3 * COIN, 3 * COIN]),
     ]
     plans = []
     # exhaustive arrival points for two builders (second build arrives after k scheduler steps)
@@ -207,8 +253,12 @@ def leg_c(ctx):
         total = sum(prep.amounts)
         demands = [int(rng.uniform(0.05, 1.6) * total / nb) for _ in range(nb)]
         arrivals = [0] + [rng.randrange(0, 160) for _ in range(nb - 1)]
-        endings = [(rng.choice(['broadcast', 'abandon']), rng.randrange(0, 60)) for _ in range(nb)]
-        if prep is preps[4]:
+        endings = [(rng.choice(['broadcast', 'broadcast', 'abandon', 'abandon', 'cancel', 'refuse']), rng.randrange(0, 60)) for _ in range(nb)]
+        if prep is preps[5]:
+            # builds funding from overlapping account lists, close together
+            demands = [('accs', int(rng.uniform(0.3, 2.6) * COIN), rng.choice(['A', 'B', 'AB', 'BA', 'B', 'AB'])) for _ in range(nb)]
+            arrivals = [0] + [rng.randrange(0, 40) for _ in range(nb - 1)]
+        elif prep is preps[4]:
             demands = [0 if rng.random() < 0.8 else 600 for _ in range(nb)]
         elif rng.random() < 0.35:
             # some builds come with a caller-chosen input (each a different wallet output) that covers their small payment; they
